@@ -85,7 +85,7 @@ impl Check for C19 {
         "C19"
     }
     fn rule(&self) -> String {
-        "progGen scripts and modules (with and without host-provided imports, host holes answered with values / errors / deferred order-linked promises, planted uncaught errors) run by five drivers with one fixed host schedule: eval, prepare+step, prepare+step with seeded host activity between steps (call_depth, gc_stats, export names, guards, unrelated JSON objects), C API tsrun_run, C API tsrun_step; plus a synchronous module text run as entry program, as host-provided dependency and as InternalModule::source. Oracle: identical observable history (non-Continue results with payloads, console, final value or first line of the error text, exports) across drivers; identical exported values and console across roles. non-trivial = the program did more than complete at once (suspended, imported, or failed) or the role stratum ran; distinct = distinct digest of the D2 history".into()
+        "progGen scripts and modules (with and without host-provided imports, host holes answered with values / errors / deferred order-linked promises, planted uncaught errors) run by five drivers with one fixed host schedule: eval, prepare+step, prepare+step with seeded host activity between steps (call_depth, gc_stats, export names, guards, unrelated JSON objects), C API tsrun_run, C API tsrun_step; plus a synchronous module text run as entry program, as host-provided dependency and as InternalModule::source. Oracle: identical observable history (non-Continue results with payloads, console, final value or first line of the error text, exports) across drivers; identical exported values and console across roles. non-trivial = the program did more than complete at once (suspended, imported, or failed) or the role stratum ran; distinct = distinct digest of the D2 history. Also: the author-written corpus through all five drivers; one collection-injection policy (H2 seam) for every driver; batch orders incl. never-awaited ones; console text with U+0000; a failing module body must report the same error in all three roles; role comparison with a retry (body fails until the host sets a global flag, second attempt compared)".into()
     }
     fn components(&self) -> Value {
         json!({"real": ["Interpreter::eval / prepare / step", "ffi: tsrun_prepare, tsrun_run, tsrun_step, tsrun_fulfill_orders, tsrun_create_pending_order, tsrun_create_order_promise, tsrun_resolve/reject_promise, tsrun_provide_module, tsrun_get_export(_names), internal module registration, console callback", "module roles: entry / provided / InternalModule::source"],
